@@ -143,9 +143,37 @@ pub fn observe(v: &Value) -> Value {
         }
       }
     }
-    let mut out = json!({"streams": streams, "maps": maps, "tree": v["tree"], "panics": panics});
+    let mut subs = serde_json::Map::new();
+    let t = &v["tree"];
+    let mut sub_list: Vec<(String, &Value)> = Vec::new();
+    match t["kind"].as_str().unwrap_or("") {
+      "replace" | "cached" => sub_list.push(("inner".to_string(), &t["inner"])),
+      "concat" | "concat_add" => {
+        for (k, c) in t["children"].as_array().unwrap().iter().enumerate() {
+          sub_list.push((format!("child{}", k), c));
+        }
+      }
+      _ => {}
+    }
+    for (name, sp) in sub_list {
+      let r = catch_unwind(AssertUnwindSafe(|| {
+        let s = build(sp);
+        json!({"source": s.source().to_string(), "streams": {"c1f0": stream(&s, true, false)}, "maps": {}})
+      }));
+      if let Ok(x) = r {
+        subs.insert(name, x);
+      }
+    }
+    let mut out = json!({"streams": streams, "maps": maps, "tree": v["tree"], "panics": panics, "subs": subs});
     if let Some(s) = source {
       out["source"] = s;
+    }
+    if v.get("alt_tree").is_some() && !v["alt_tree"].is_null() {
+      let mut v2 = v.clone();
+      v2["tree"] = v["alt_tree"].clone();
+      v2.as_object_mut().unwrap().remove("alt_tree");
+      out["alt"] = observe(&v2);
+      out["alt_kind"] = v["alt"].clone();
     }
     out
   }));
